@@ -47,7 +47,11 @@ FAILS = {'fail_code', 'fail_keep', 'empty', 'short', 'missing', 'missing_code', 
 def make_res(rng):
     """a model with UNIT, optional ACTA (anywhere among the instructions), L.S. or CGLS"""
     text = c04.make_file(rng, 'plain')
-    return text
+    lines = text.rstrip('\n').split('\n')
+    if not any(l.upper().startswith(('L.S.', 'CGLS')) for l in lines):      # a refinement job has a cycles instruction
+        fv = [i for i, l in enumerate(lines) if l.upper().startswith('FVAR')][0]
+        lines.insert(fv, rng.choice(['L.S. 10', 'CGLS 5', 'L.S. 4 0 2']))
+    return '\n'.join(lines) + '\n'
 
 
 def new_res(text, rng):
